@@ -1,5 +1,6 @@
 import GffProofs.Props.C16
 import GffProofs.Props.C16Db
+import GffProofs.Gen.CritEq
 open GffProofs.C16
 #print axioms merge_partition_general
 #print axioms merge_partition
@@ -30,3 +31,14 @@ open GffProofs.C16Db
 #print axioms reparentAll_untouched
 #print axioms reparentAll_member
 #print axioms merge_all_new_rows
+#print axioms GffProofs.Gen.seqid_eq
+#print axioms GffProofs.Gen.strand_eq
+#print axioms GffProofs.Gen.feature_type_eq
+#print axioms GffProofs.Gen.exact_coordinates_only_eq
+#print axioms GffProofs.Gen.overlap_end_inclusive_eq
+#print axioms GffProofs.Gen.overlap_start_inclusive_eq
+#print axioms GffProofs.Gen.overlap_any_inclusive_eq
+#print axioms GffProofs.Gen.overlap_end_threshold_eq
+#print axioms GffProofs.Gen.overlap_start_threshold_eq
+#print axioms GffProofs.Gen.overlap_any_threshold_eq
+#print axioms GffProofs.Gen.defaultCriteria_eq
